@@ -55,3 +55,20 @@ Proof. vm_compute. reflexivity. Qed.
 Example remove_with_duplicates :
   remove_header_callback ra [ra; ra; ra] = [ra] /\ remove_header_callback ra [ra; rb; ra] = [rb].
 Proof. vm_compute. split; reflexivity. Qed.
+
+(* ---- payload independence and its refutation for a payload-dependent filter (seeded C07-f) *)
+Definition r_linkctrl := port_reg 15 7.
+Example null_packet_reaches_linkctrl_callback :
+  dispatch_pk (fun _ _ => []) 0 (243, []) (mkSt [r_linkctrl] []) [] = (mkSt [r_linkctrl] [], [EPort r_linkctrl 0], true) /\
+  dispatch_pk (fun _ _ => []) 0 (243, [1]) (mkSt [r_linkctrl] []) [] = (mkSt [r_linkctrl] [], [EPort r_linkctrl 0], true).
+Proof. vm_compute. auto. Qed.
+
+(* the filter drops the empty-payload packets 0xF3/0xF7/0xFB/0xFF for a matching registration and lets the same
+   header with a payload through: it is not a function of (port, channel) *)
+Example payload_dependent_filter_refuted :
+  matches 243 r_linkctrl = true /\
+  dispatch_nullskip (fun _ _ => []) 0 (243, []) (mkSt [r_linkctrl] []) [] = (mkSt [r_linkctrl] [], [], true) /\
+  dispatch_nullskip (fun _ _ => []) 0 (243, [1]) (mkSt [r_linkctrl] []) [] = (mkSt [r_linkctrl] [], [EPort r_linkctrl 0], true) /\
+  map (fun h => snd (fst (dispatch_nullskip (fun _ _ => []) 0 (h, []) (mkSt [mkReg 0 0 0 0 9] []) []))) [243; 247; 251; 255; 240] =
+    [[]; []; []; []; [EPort (mkReg 0 0 0 0 9) 0]].
+Proof. vm_compute. auto. Qed.
